@@ -48,7 +48,7 @@ func (c09) Cases(tier string, seed uint64) []core.Case {
 	seeds := 3
 	calls := 500
 	if tier == "thorough" {
-		seeds, calls = 40, 900
+		seeds, calls = 160, 900
 	}
 	r := core.NewRng(core.Mix(seed, 0xC09))
 	var out []core.Case
